@@ -92,7 +92,8 @@ func m(kv ...any) map[string]any {
 func l(v ...any) []any { return append([]any{}, v...) }
 
 func singles() []opnd {
-	vs := []any{nil, false, true, int64(-1), int64(0), int64(1), int64(2), -1.5, 0.0, 1.0, 2.5,
+	// 2^53 and 2^53+1: two integers next to each other that one float64 stands for
+	vs := []any{nil, false, true, int64(-1), int64(0), int64(1), int64(2), int64(9007199254740992), int64(9007199254740993), -1.5, 0.0, 1.0, 2.5,
 		"", "a", "b", "1", l(), l(int64(1), "a"), m(), m("a", int64(1)), scriptref.Nothing{},
 		scriptref.Regex("a"), l(l(int64(1), "a"), 2.5, "b")}
 	out := make([]opnd, len(vs))
@@ -1193,6 +1194,44 @@ func runLogic(c *core.Ctx) {
 		}
 		c.Add("logic_trees", 1)
 		runTree(c, t, classes, els, specs, i%4001 == 0)
+	}
+	// chains of three and four many-valued comparisons with their own constants
+	// (@.m[*] == 1 && @.m[*] == 2 && @.m[*] == 3 holds when some choice of one
+	// value per operand makes it hold: every combination has to be tried)
+	idxc := len(trees)
+	for n := 3; n <= 4; n++ {
+		total := 1
+		for i := 0; i < n; i++ {
+			total *= 3
+		}
+		for i := 1; i < n; i++ {
+			total *= 2
+		}
+		for code := 0; code < total; code++ {
+			idxc++
+			if !c.Mine(idxc) {
+				continue
+			}
+			if c.Expired("C12 many-valued chains") {
+				return
+			}
+			x := code
+			var t *node
+			for i := 0; i < n; i++ {
+				a := scriptref.B("==", scriptref.P(scriptref.K("m"), scriptref.W()), scriptref.C(int64(1+x%3)))
+				classes[a] = "multi"
+				x /= 3
+				if t == nil {
+					t = a
+					continue
+				}
+				t = scriptref.B([]string{"&&", "||"}[x%2], t, a)
+				x /= 2
+			}
+			c.Add("logic_trees", 1)
+			c.Add("many_valued_chains", 1)
+			runTree(c, t, classes, els, specs, false)
+		}
 	}
 	if c.Quick() {
 		return
